@@ -348,6 +348,11 @@ impl Components {
                 };
             }
 
+            // Reparto según la magnitud de la energía entregada (+) o absorbida (-) por cada servicio
+            for q_out in q_out_by_srv.values_mut() {
+                q_out.iter_mut().for_each(|v| *v = v.abs());
+            }
+
             let mut q_out_tot = vec![0.0; self.num_steps()];
             for q_out in q_out_by_srv.values() {
                 q_out_tot = vecvecsum(&*q_out_tot, q_out);
